@@ -75,6 +75,12 @@ def gen(ctx):
                 cases.append({"op": "add", "a": str(a), "b": str(b)})
                 cases.append({"op": "sub", "a": str(min(a + b, U256 - 1)), "b": str(b)})
                 cases.append({"op": "sub", "a": str(b), "b": str(a)})
+    # identities and equal operands: x+0, 0+x, x-0, x-x, 0-0, x-(x+1) for boundary and random x
+    for x in [0, 1, 2, 9, RAW - 1, RAW, 2 ** 64 - 1, 2 ** 64, 2 ** 128 - 1, 2 ** 128, 2 ** 255, U256 - 2, U256 - 1] + \
+            [rng.getrandbits(rng.choice([8, 64, 128, 200, 256])) for _ in range(12)]:
+        for (op, a, b) in [("add", x, 0), ("add", 0, x), ("sub", x, 0), ("sub", x, x), ("sub", 0, x),
+                           ("sub", x, min(x + 1, U256 - 1)), ("add", x, U256 - 1 - x), ("add", x, min(U256 - x, U256 - 1))]:
+            cases.append({"op": op, "a": str(a), "b": str(b)})
     for _ in range(n // 2):
         a, b = rng.choice(ams), rng.choice(ams)
         if rng.random() < 0.3:
